@@ -10,11 +10,12 @@ if [ -n "$(git -C /repo status --porcelain)" ]; then echo "/repo working tree is
 for id in $ids; do
   [ -f seeded/$id/patch.diff ] || continue
   git -C /repo apply /verif/seeded/$id/patch.diff || { echo "$id patch does not apply" | tee -a seeded/RESULTS.txt; continue; }
-  ./vf check $id > /tmp/run_seeded_$id.log 2>&1; code=$?
+  prop=${id%%_*}  # C07_r2 -> C07
+  ./vf check $prop > /tmp/run_seeded_$id.log 2>&1; code=$?
   git -C /repo checkout -- .
   obs=$(grep -A1 '^VIOLATION' /tmp/run_seeded_$id.log | grep 'obligation' | sed 's/^ *obligation \([^ ]*\).*/\1/' | sort -u | tr '\n' ' ')
   echo "$id exit=$code violated: $obs" | tee -a seeded/RESULTS.txt
   rm -f /tmp/run_seeded_$id.log
 done
 # the checks rewrote evidence on a changed tree: refresh it on the clean one
-for id in $ids; do ./vf check $id > /dev/null 2>&1; done
+for prop in $(for id in $ids; do echo ${id%%_*}; done | sort -u); do ./vf check $prop > /dev/null 2>&1; done
